@@ -36,6 +36,9 @@ type ChildCase struct {
 	KillThreadProbe bool       `json:"kill_thread_probe,omitempty"`
 	Unprivileged    bool       `json:"unprivileged,omitempty"`
 
+	// Raw: rawload mode hands this program (code, jt, jf, k) to seccomp(2) directly.
+	Raw [][4]uint32 `json:"raw,omitempty"`
+
 	History *HistoryCase `json:"history,omitempty"`
 	TSync   *TSyncCase   `json:"tsync,omitempty"`
 	NNPCase *NNPCase     `json:"nnp_case,omitempty"`
